@@ -33,6 +33,9 @@ Inductive ev :=
 | Block (b : N)                        (* blocking I/O call, index into sk_blocks *)
 | Spin (w : own) (f : N)               (* busy-wait loop on an atomic load of field f *)
 | Call (inst : own) (g : N)            (* call of function g; inst = which halfConn is the receiver *)
+| LoopCall (inst : own) (g : N)        (* the same inside a for / range statement: the callee runs once per
+                                          iteration; the trace unrolls it twice, so that a critical section the
+                                          callee opens and closes shows up as two sections *)
 | Go (g : N)                           (* go statement *)
 | Guard (g : N)                        (* what follows (in this function) runs only if g() returned nil / true *)
 | EndGuard (g : N)
@@ -168,6 +171,7 @@ Definition one (call : own -> N -> list N -> tr) (mk : marks) (inst : own) (hs :
   | Block b => ([AEv (LBlock b site hs)], [])
   | Spin w f => ([AEv (LSpin (subst_o inst w) f site)], [])
   | Call i g => call (subst_o inst i) g gs
+  | LoopCall i g => let (m, sp) := call (subst_o inst i) g gs in (m ++ m, sp ++ sp)
   | Go g => let (m, sp) := call ONone g gs in ([], m :: sp)
   | Guard _ | EndGuard _ | Defer _ => ([], [])
   end.
